@@ -199,7 +199,7 @@ fn execute(dir: &Path, r: &Run) -> Result<(), (Option<&'static str>, String)> {
         return Ok(());
     }
     // the library, called in-process with the harness's own flag -> option table
-    let lib = run_job_here(&Job { schema_path: spath.to_string_lossy().into(), query: QuerySrc::Path(qpath.to_string_lossy().into()), opts: r.opts.clone() });
+    let lib = run_job_here(&Job { schema_path: spath.to_string_lossy().into(), query: QuerySrc::Path(qpath.to_string_lossy().into()), opts: r.opts.clone(), cwd: None });
     let tokens = match lib {
         Outcome::Ok(t) => t,
         other => {
